@@ -1,10 +1,16 @@
 package c17
 
 import (
+	"sync/atomic"
 	"time"
 
 	"verifharness/internal/ctl"
 )
+
+// hangSeen is set once a hang verdict was produced in this process. From then on (rapid is shrinking a case
+// that already failed; every candidate that still hangs would cost the full budget again) the budget is 2 s.
+// It never influences whether a process fails: it is only set by a failure.
+var hangSeen atomic.Bool
 
 // The hang watchdog of this package: like ctl.WaitChan(ch, ctl.HangTimeout), but the budget only counts
 // time during which this process demonstrably ran: the wait is sliced into 100 ms sleeps and a slice that
@@ -13,6 +19,9 @@ import (
 // machine stall cannot be mistaken for one.
 func patientRecv[T any](ch <-chan T, budget time.Duration) (v T, ok bool) {
 	const slice, maxCounted = 100 * time.Millisecond, 200 * time.Millisecond
+	if hangSeen.Load() && budget > 2*time.Second {
+		budget = 2 * time.Second
+	}
 	var healthy time.Duration
 	timer := time.NewTimer(slice)
 	defer timer.Stop()
@@ -31,6 +40,7 @@ func patientRecv[T any](ch <-chan T, budget time.Duration) (v T, ok bool) {
 	case v = <-ch:
 		return v, true
 	default:
+		hangSeen.Store(true)
 		return v, false
 	}
 }
